@@ -69,12 +69,13 @@ def run(tier, seed):
             x.backend = "guard"
             if x.status == "discharged": x.status = "vacuity-ok"
     obs = typestate_obligations("C15")
+    o2, f2 = accessor_obligations("C15"); obs += o2
     smt.discharge_all(obs, tier)
     results += [runner.from_smt(o) for o in obs]
     results += kani.run_specs("C15", e3sets.PLANE_IDX + e3sets.WITH_FACES, tier)
     meta = {
         "level": "proof",
-        "functions": slices + [{"fn": e3sets.U_PLANE_IDX, "backend": "Kani on the real crate"}, {"fn": e3sets.U_WITH_FACES, "backend": "Kani on the real crate"}],
+        "functions": slices + f2 + [{"fn": e3sets.U_PLANE_IDX, "backend": "Kani on the real crate"}, {"fn": e3sets.U_WITH_FACES, "backend": "Kani on the real crate"}],
         "assumptions": verus.scan_assumptions(text) + [
             "vx_panic / vx_unwrap: diverging stubs - sort_face_vertices may panic ('There always must be a next vertex'): its postcondition holds when it returns",
             "assume_specification of <[usize]>::contains and <[T]>::swap (std)",
@@ -90,3 +91,60 @@ def run(tier, seed):
                        "can be reached (syntactic type-state obligations).",
     }
     return results, meta
+
+
+def accessor_obligations(prefix):
+    """'Neighbour and shift accessors agree with the face integrals': for every face f of a cell with face data, neighbour(f) / shift(f) /
+    clipping_plane(f) read the half-space faces[f].clipping_plane, the very half-space FaceIntegrator::init labels the face integral of that
+    plane with; face_vertex_count / face_vertices read the slice [vertex_offset, vertex_offset + vertex_count)."""
+    from .. import symex, terms as tm
+    from ..terms import Var, And, Eq, Implies, TRUE
+    from ..symex import Struct, SymArr, Opt
+    from ..e2 import Unit, vec, option, real
+    from . import faces as F
+    XF = ("voronoi/half_space.rs", "geometry.rs", "voronoi/integrals.rs")
+    obs, fns = [], []
+    made = []
+    def face(i):
+        k = "face%d" % len(made); made.append(i)
+        return Struct("ConvexCellFace", {"clipping_plane": Var(k + "_plane", "Int", "usize"), "vertex_count": Var(k + "_count", "Int", "usize"),
+                                         "vertex_offset": Var(k + "_offset", "Int", "usize")})
+    cell, planes = F.sym_cell("wf")
+    f = Var("face_idx", "Int", "usize")
+    same_opt = lambda a, b, eqf: And(Eq(a.some, b.some), Implies(a.some, eqf(a.val, b.val)))
+    veq = lambda a, b: And(*[Eq(x, y) for x, y in zip(a.c, b.c)])
+    for name, field, eqf in (("neighbour", "right_idx", Eq), ("shift", "shift", veq)):
+        u = Unit(CC, "ConvexCell::" + name)
+        facearr = SymArr(face)
+        ctx = symex.Ctx()
+        ctx.contracts["ConvexCell::faces"] = lambda interp, env, node, args, fa=facearr: fa     # type-state: Some(faces) (obligations above)
+        r, env, ctx, it = u.run({"self": cell, "face_idx": f}, ctx, extra_files=XF)
+        if f not in facearr.memo: raise extract.Undecided("lost anchor: %s no longer reads faces()[face_idx]" % name)
+        k = facearr.memo[f].f["clipping_plane"]
+        # the face integral of that plane carries the labels FaceIntegrator::init copies from the same half-space
+        ui = Unit("voronoi/integrals.rs", "FaceIntegrator::init")
+        ctx2 = symex.Ctx(); ctx2.contracts["I::init_with_data"] = lambda interp, env, node, args: Struct("I", {})
+        r2, env2, ctx2, _ = ui.run({"cell": cell, "clipping_plane_idx": k, "data": symex.UNIT}, ctx2, extra_files=XF)
+        lab = r2.f["right"] if field == "right_idx" else r2.f["shift"]
+        if not isinstance(r, Opt): raise extract.Undecided("%s does not return an Option" % name)
+        obs.append(Obligation("%s.accessors.%s_of_face_agrees_with_the_label_of_its_face_integral" % (prefix, name), ctx.assume + ctx.ok + ctx2.assume + ctx2.ok,
+                              same_opt(r, lab, eqf), u.label, replay=replay_accessors))
+        fns.append({"fn": u.label, "slice_sha": u.sha})
+    return obs, fns
+
+
+def replay_accessors(ob):
+    """Small 3D tessellations (periodic with 1-3 generators, where a cell borders its own images, and a reflective one) through the public
+    API: every stored VoronoiFace with left = c must be found among (neighbour(f), shift(f)) of cell c's faces."""
+    from ..runner import replay_requests
+    base = [[0.3, 0.4, 0.6], [0.7, 0.6, 0.2], [0.5, 0.1, 0.9], [0.15, 0.8, 0.35]]
+    reqs = [{"op": "cell_face_labels", "gens": base[:n], "anchor": [0, 0, 0], "width": [1, 1, 1], "periodic": per} for n, per in ((1, True), (2, True), (3, True), (4, False))]
+    bad = []
+    key = lambda r, s: (r, None if s is None else tuple(round(x, 9) for x in s))
+    for rq, a in zip(reqs, replay_requests(reqs, timeout=300)):
+        for c in a.get("cells", []):
+            have = [key(x["neighbour"], x["shift"]) for x in c["accessors"]]
+            for st in c["stored_faces_with_this_left"]:
+                if key(st["right"], st["shift"]) not in have:
+                    bad.append({"request": rq, "cell": c["idx"], "stored_face": st, "accessor_labels": c["accessors"]}); break
+    return {"reproduced": bool(bad), "runs": bad[:2], "what": "neighbour(f)/shift(f) of a cell's faces do not reproduce the (right, shift) labels of its stored faces"}
